@@ -43,7 +43,7 @@ PROPS["C11"] = dict(l1_ops=l1.UNARY_T + l1.UNARY_G + l1.BINARY_GG + l1.BINARY_GT
                     l1_algo=["interp_slerp", "avg_bi", "decasteljau"], groups_l1=gen.BUNDLES, groups_l2=gen.BUNDLES,
                     l2_algo="C11", n_l1=(900, 9000), n_l2=(40, 600))
 PROPS["C07"] = dict(l1_ops=["hat", "vee", "generator", "innerWeights", "bracket", "inner", "sqwnorm", "wnorm"],
-                    l2="C07", n_l1=(400, 6000), n_l2=(80, 2000))
+                    l2="C07", groups_l1=MODELLED + ["B:SE2,SO3,R2", "B:SE_2_3,R1,SE2", "B:R2,SO3"], c07n_groups=gen.BUNDLES[3:], n_l1=(400, 6000), n_l2=(80, 2000))
 
 PROPS["C12"] = dict(l1_ops=[], custom="c12", n_l1=(0, 0), n_l2=(0, 0))
 PROPS["C19"] = dict(l1_ops=l1.ALIASES, custom="c19", l1_masks=True, n_l1=(600, 8000), n_l2=(0, 0))
@@ -85,6 +85,14 @@ def case_from_request(pid, line, r):
         return dict(prop=pid, group=group, kind="c06", reqs=reqs, tags=tags, t=tt)
     if pid == "C06" and op == "adj":
         return dict(prop=pid, group=group, kind="c06adj", reqs=[gen.req(dbg, "o", group, "adj", 0, a[:R])], tags=tags, X=a[:R])
+    if pid == "C07" and op in ("wnorm", "sqwnorm", "inner", "generator"):
+        c = l2.c07n_case(r, group)
+        if op != "generator" and len(a) >= D:
+            c["a"] = a[:D]
+            c["reqs"] = c["reqs"][:len(c["idx"]) + 1] + [gen.req(dbg, "o", group, "wnorm", 0, a[:D]), gen.req(dbg, "o", group, "sqwnorm", 0, a[:D]),
+                                                         gen.req(dbg, "o", group, "inner", 0, a[:D] + a[:D])]
+        c["tags"] = tags
+        return c
     if pid == "C04" and l1.CANON.get(op, op) in ("rminus", "lminus", "between", "rplus", "lplus"):
         cop = l1.CANON.get(op, op)
         if cop in ("rplus", "lplus"):
@@ -188,6 +196,8 @@ def run_property(pid, thorough, seed, res):
             cs += l2.cases_algo(cfg["l2_algo"], r, g, n2 * (2 if broken else 1), builds[True])
     if cfg.get("box"):
         cs += l2.cases_c17_box()
+    for g in cfg.get("c07n_groups", []):          # norm / index-range clauses on bundles (no reference model needed)
+        cs += [l2.c07n_case(r, g) for _ in range(max(2, n2 // 40))]
     def valid_input(b):       # directed cases must be inputs the property quantifies over
         return not any(x in t for t in b["tags"] for x in ("norm+1.1", "norm-1.1", "norm+10", "norm-10", "normfar"))
     for b in [b for b in l1_bad if valid_input(b)][:400]:
@@ -271,7 +281,7 @@ def _purity(kind):
     def run(builds, r, thorough, res):
         import purity
         n = 40 if thorough else 5
-        groups = [g for g in ALL_GROUPS if g not in ("R1", "R5")]
+        groups = [g for g in ALL_GROUPS if g not in ("R1", "R5")] + ["B:SE2,SO3,R2"]
         bad, viol, total = [], [], 0
         for dbg in (True, False):
             f = purity.run_c09 if kind == "c09" else purity.run_c10
